@@ -661,11 +661,7 @@ def run(cx):
     pm = mod(PARSER)
     cx.consulted(pm)
     cx.explanation = (
-        "path-sensitive effect analysis of both statement-dispatch loops (every exit of every arm), def-use check "
-        "that block-header regexes only ever see comment-stripped text, structural check that every block-extent "
-        "decision skips blank/comment-only lines and compares _indent_of values, flow of the physical-line list, "
-        "scope-sharing of the name sets that guard arms, shadowing order of arms; regex acceptance of spacing "
-        "variants is not decided"
+        "every statement of a corpus (DSL statements, meaningless lines, Python statements outside the DSL) is parsed in four contexts and must be refused or leave a trace in the IR; block extents by exhaustive evaluation of the collectors on all short line sequences against Python's block structure; _indent_of and _strip_inline_comment as decision lists; spacing and trailing-comment variants certified by Python's tokenizer on four canonical scripts; string contents, multi-line statements, re-specialisation, def-above-declaration and all-devices-declared scripts; regex language analysis (keyword boundaries); no module state. Layouts outside the evaluated families are not decided."
     )
     rule_account(cx, "C07")
 
